@@ -33,6 +33,13 @@ Step(e) ==
          ELSE IF Res(e.res) # View(pend[e.r].op, pend[e.r].id)
               THEN Reject("stale-or-partial-read", View(pend[e.r].op, pend[e.r].id), Res(e.res))
          ELSE pend' = Del(pend, e.r) /\ UNCHANGED <<boot, items, cobs>> /\ Keep
+    [] e.ev = "racelist" ->   \* a filtered List during which the cache applied one mutation: the contents at one instant
+         LET after == IF e.op = "put" THEN Put(items, e.id, [ver |-> e.ver, td |-> e.td]) ELSE Del(items, e.id)
+             VOf(its) == {<<i, its[i].ver, its[i].td>> : i \in DOMAIN its}
+         IN IF e.note # "ok" THEN Reject("filtered-list-failed", "ok", e.note)
+            ELSE IF Res(e.res) # VOf(items) /\ Res(e.res) # VOf(after)
+            THEN Reject("filtered-list-not-a-snapshot", [before |-> VOf(items), after |-> VOf(after)], Res(e.res))
+            ELSE items' = after /\ cobs' = Observe(items') /\ UNCHANGED <<boot, pend>> /\ Keep
     [] e.ev = "ctx" -> cobs' = Put(cobs, <<e.n, e.id>>, TdLike(items, e.id)) /\ UNCHANGED <<boot, items, pend>> /\ Keep
     [] e.ev = "cancelctx" ->     \* the parent of context n was cancelled
          /\ cobs' = [c \in DOMAIN cobs |-> IF c[1] = e.n THEN TRUE ELSE cobs[c]] /\ UNCHANGED <<boot, items, pend>> /\ Keep
